@@ -262,6 +262,31 @@ func (m *Machine) setupIntrinsics() {
 		}
 		return mkBool(t)
 	})
+	reg("vThriftBlob", func(m *Machine, a []Val) Val {
+		msg := a[0].(Iface)
+		ci := len(m.captured)
+		m.captured = append(m.captured, captured{T: msg.T, V: deepCopy(*msg.V.(Ptr).P)})
+		n := 2 + ci%3
+		if m.opt.FixedHdr {
+			n = 3
+		}
+		id := m.newBlob("thrift", ci, nil, n)
+		return Slice{V: blobBytes(id, n)}
+	})
+	reg("vCompressBlob", func(m *Machine, a []Val) Val {
+		codec := a[0].(Int).AsInt()
+		src := a[1].(Slice)
+		snap := append([]Val{}, src.V...)
+		switch codec {
+		case 1:
+			n := len(snap) + 2
+			return Slice{V: blobBytes(m.newBlob("snappy", -1, snap, n), n)}
+		case 2:
+			n := len(snap) + 18
+			return Slice{V: blobBytes(m.newBlob("gzip", -1, snap, n), n)}
+		}
+		return src
+	})
 	reg("vNumBlobs", func(m *Machine, a []Val) Val { return goInt(len(m.blobs)) })
 	reg("vMisaligned", func(m *Machine, a []Val) Val { return goInt(len(m.misaligned)) })
 	reg("vMisalignedClear", func(m *Machine, a []Val) Val { m.misaligned = nil; return nil })
